@@ -233,6 +233,25 @@ func TestVerifC05(t *testing.T) {
 		}
 		add(vc05Scn(k+"-2-multinode", "redis-multinode", false, init, vs[0], vs[0]))
 	}
+	// store faults: the Get / Set / Delete of one request fails; nobody may be honoured because of it (fail closed)
+	for _, k := range kinds {
+		vs := vc05Variants(k, "s1")
+		init := []VerifC05Init{{Kind: k, ID: "s1", Val: "clientA"}}
+		faults := []string{"get", "del"}
+		if k == "s2s" || k == "jti" {
+			faults = []string{"get", "set"}
+		}
+		for _, f := range faults {
+			bad := vs[0]
+			bad.Fail = f
+			if k == "s2s" || k == "jti" {
+				add(vc05Scn(k+"-2-fault-"+f, "mem", false, nil, bad, vs[0]))
+				add(vc05Scn(k+"-2-fault-"+f+"-used", "mem", false, init, bad, vs[0]))
+			} else {
+				add(vc05Scn(k+"-2-fault-"+f, "mem", false, init, bad, vs[rng.Intn(len(vs))]))
+			}
+		}
+	}
 	// mixed kinds presenting the same id (different namespaces)
 	add(vc05Scn("mixed-2", "mem", false, []VerifC05Init{{Kind: "code", ID: "s1", Val: "clientA"}}, vc05Variants("code", "s1")[0], vc05Variants("s2s", "s1")[0]))
 
